@@ -1,7 +1,7 @@
 """Kani back end.
 
 Two build modes:
-  ext   -- /verif/kani/ext: an external harness crate linking the real crates by path
+  ext | rel -- /verif/kani/ext, /verif/kani/rel: external harness crates linking the real crates by path
            (Cargo.toml generated from Cargo.toml.in with the repo path substituted);
   ws:<pkg> -- `cargo kani -p <pkg>` inside the repo workspace; harness modules are pulled in by
            the `#[cfg(kani)]` hooks via env GMSOL_VERIF_DIR.
@@ -30,10 +30,12 @@ def _env(repo):
     return e
 
 
-def prepare_ext(repo):
-    d = os.path.join(BUILD, 'kani-ext')
+def prepare_ext(repo, name='ext'):
+    """`ext`: harness crate over gmsol-model / gmsol-utils / chainlink; `rel`: relational harness crate linking BOTH
+    gmsol-store (program) and gmsol-programs (SDK)."""
+    d = os.path.join(BUILD, f'kani-{name}')
     os.makedirs(d, exist_ok=True)
-    t = open(os.path.join(VERIF, 'kani', 'ext', 'Cargo.toml.in')).read()
+    t = open(os.path.join(VERIF, 'kani', name, 'Cargo.toml.in')).read()
     t = t.replace('@REPO@', repo).replace('@VERIF@', VERIF)
     p = os.path.join(d, 'Cargo.toml')
     if not os.path.exists(p) or open(p).read() != t:
@@ -129,9 +131,9 @@ def run_group(mode, specs, repo, tier):
     env = _env(repo)
     names = [s['harness'] for s in specs]
     flags = ['-Z', 'stubbing', '-Z', 'function-contracts']
-    if mode == 'ext':
-        cwd = prepare_ext(repo)
-        env['CARGO_TARGET_DIR'] = os.path.join(BUILD, 'kani-target-ext')
+    if mode in ('ext', 'rel'):
+        cwd = prepare_ext(repo, mode)
+        env['CARGO_TARGET_DIR'] = os.path.join(BUILD, f'kani-target-{mode}')
         cmd = ['cargo', 'kani']
     else:
         pkg = mode.split(':', 1)[1]
@@ -239,9 +241,9 @@ def counterexample(ob, repo):
     env = _env(repo)
     mode = ob['mode']
     flags = ['-Z', 'stubbing', '-Z', 'function-contracts', '-Z', 'concrete-playback', '--concrete-playback=print']
-    if mode == 'ext':
-        cwd = prepare_ext(repo)
-        env['CARGO_TARGET_DIR'] = os.path.join(BUILD, 'kani-target-ext')
+    if mode in ('ext', 'rel'):
+        cwd = prepare_ext(repo, mode)
+        env['CARGO_TARGET_DIR'] = os.path.join(BUILD, f'kani-target-{mode}')
         cmd = ['cargo', 'kani']
     else:
         cwd = repo
